@@ -126,6 +126,11 @@ func (a *IntArrCell) read(c *Ctx, idx *Term) *Term {
 		}
 		return c.Select(a.Base, idx)
 	}
+	if a.Base == nil && len(a.Ov) > 8 {
+		if t := a.constTableLookup(c, idx); t != nil {
+			return t
+		}
+	}
 	if a.Base == nil && len(a.Ov) <= 48 {
 		// ite chain over written entries
 		res := c.BV(a.EW, 0)
@@ -572,4 +577,44 @@ func (p *Path) constInt(t *Term, what string) (uint64, bool) {
 		return t.Val, true
 	}
 	return 0, false
+}
+
+// constTableLookup encodes a read of a constant table at a symbolic index as a nested ite over index ranges grouped by
+// value (e.g. a 256-entry character-class table with 5 distinct values becomes a handful of range tests).
+func (a *IntArrCell) constTableLookup(c *Ctx, idx *Term) *Term {
+	keys := sortedKeys(a.Ov)
+	for _, k := range keys {
+		if !a.Ov[k].IsConst() {
+			return nil
+		}
+	}
+	type run struct{ lo, hi, val uint64 }
+	var runs []run
+	for _, k := range keys {
+		v := a.Ov[k].Val
+		if n := len(runs); n > 0 && runs[n-1].hi+1 == k && runs[n-1].val == v {
+			runs[n-1].hi = k
+			continue
+		}
+		runs = append(runs, run{k, k, v})
+	}
+	if len(runs) > 64 {
+		return nil
+	}
+	// indices not written read as zero (the array default)
+	res := c.BV(a.EW, 0)
+	for i := len(runs) - 1; i >= 0; i-- {
+		r := runs[i]
+		if r.val == 0 {
+			continue
+		}
+		var cond *Term
+		if r.lo == r.hi {
+			cond = c.Eq(idx, c.BV(64, r.lo))
+		} else {
+			cond = c.And(c.ULE(c.BV(64, r.lo), idx), c.ULE(idx, c.BV(64, r.hi)))
+		}
+		res = c.Ite(cond, c.BV(a.EW, r.val), res)
+	}
+	return res
 }
